@@ -302,9 +302,10 @@ def fully(eng, res, rule="R-FULLY"):
 
 def do_while(eng, res):
     """Shared with C07: growth step dominates every exit of the growth loop."""
-    G = c07.Growth(eng)
     sub = type(res)(res.prop)
-    c07.check_growth(eng, sub, G)
+    G = c07.growth_or_violation(eng, sub)
+    if G is not None:
+        c07.check_growth(eng, sub, G)
     for o in sub.obligations:
         if o.rule == "R-DO-WHILE":
             res.obligations.append(o)
